@@ -269,6 +269,10 @@ def _anc(n):
 
 
 def run(ctx):
+    from ..report import Relabel
+    from .c02 import r3_skip_whitelist
+
+    r3_skip_whitelist(Relabel(ctx, 'C04.R2'))
     r1_chunk_verify(ctx)
     r2_snapshot_verify(ctx)
     r3_no_swallowed_auth_failure(ctx)
